@@ -120,8 +120,12 @@ func (s *spec) shape() string {
 	return n
 }
 
-var fieldKeys = []string{"a", "b", "c", "k", "m", "l", "v", "x", "name", "host", "port", "items", "cfg_1", "Key", "x9", "enabled", "with-dash", "ünï", "a b"}
-var mapKeys = []string{"a", "b", "k1", "k2", "alpha", "beta", "m-n", "日本", "z z"}
+// Keys are distinctive tokens: the oracle looks for dotted paths as delimited
+// tokens of a message, so a key must not be a word of the messages' prose, a
+// type name ("string", "object", "int") or part of the hand-written
+// Validate/Unpack texts.
+var fieldKeys = []string{"ka", "kb", "kc", "kd", "ke", "kf", "kg", "kh", "nam", "hst", "prt", "itms", "cfg_1", "Key7", "x9", "enbl", "with-dash", "ünï", "q r"}
+var mapKeys = []string{"ma", "mb", "k1", "k2", "alfa", "beto", "m-n", "日本", "z z"}
 
 type specGen struct {
 	r *rand.Rand
@@ -276,7 +280,7 @@ func (g *specGen) top() *spec {
 	case x < 13:
 		s = g.structSpec(depth, 2+r.Intn(4))
 		if len(s.fields) == 0 {
-			s.fields = []*field{{key: "a", sp: g.leafSpec(true)}}
+			s.fields = []*field{{key: "ka", sp: g.leafSpec(true)}}
 		}
 	case x < 16:
 		s = &spec{kind: kMap, elem: g.elemSpec(depth)}
